@@ -200,6 +200,11 @@ Section Model.
   Definition padded_mask (M : mask2d) (kh kw : Z) : mask2d :=
     let s := padded_shape M kh kw in m_all_false (fst s) (snd s) (mps M) (morg M).
   Definition padded_grid_from (M : mask2d) (kh kw : Z) : list pt := from_mask (padded_mask M kh kw).
+  (* Mask2D.trimmed_array_from(padded_array, image_shape) (also behind unmasked_blurred_array_from):
+     Array2D.no_mask(native[p0//2 : H - p0//2, p1//2 : W - p1//2], pixel_scales, origin = self.origin) *)
+  Definition trimmed_array_mask (M : mask2d) (ih iw : Z) : mask2d :=
+    let H := rows (mk M) in let W := cols (mk M) in
+    m_all_false (H - 2 * ((H - ih) / 2)) (W - 2 * ((W - iw) / 2)) (mps M) (morg M).
   Definition padded_grid_from_dropped (M : mask2d) (kh kw : Z) : list pt :=          (* before fixes/C12_padded_grid *)
     let s := padded_shape M kh kw in from_mask (m_all_false (fst s) (snd s) (mps M) zpt).
   Definition over_sampled_grid (M : mask2d) (subs : list Z) : list pt := over_sampled (mk M) (mps M) (morg M) subs.
@@ -456,7 +461,7 @@ Inductive gop :=
 | GRadial (c : qpt) (shape_slim : Z) (remove_centre : bool) | GOverlay (sy sx : Z)
 | GHilbertImage (n : Z) | GHilbertCurve (curve : list qpt) (radius : Q)
 | GScaledOfPixels (pix : list qpt) | GScaledOfPixelCentres (pix : list qpt).
-Inductive mop := MZoomUnmasked | MZoomedAround (buffer : Z) | MPadded (kh kw : Z).
+Inductive mop := MZoomUnmasked | MZoomedAround (buffer : Z) | MPadded (kh kw : Z) | MTrimmedArray (ih iw : Z).
 Inductive pop := PMaskCentre | PZoomOffsetScaled | PZoomCentre | PZoomOffsetPixels.
 Inductive dop := DApplyMask (padded : mask) | DNoiseScaling | DTrimmed (rz_data rz_noise : mask) | DSimulate (poisson : bool) | DS2N.
 
@@ -497,6 +502,7 @@ Definition mop_model (op : mop) (M : QM) : option geom :=
   | MZoomUnmasked => option_map geom_of (zoom_mask_unmasked M)
   | MZoomedAround b => option_map geom_of (zoomed_around_mask M b)
   | MPadded kh kw => Some (geom_of (padded_mask M kh kw))
+  | MTrimmedArray ih iw => Some (geom_of (trimmed_array_mask M ih iw))
   end.
 Definition mop_spec (op : mop) (M : QM) : option geom :=
   let m := mk M in let ps := mps M in let o := morg M in
@@ -508,6 +514,7 @@ Definition mop_spec (op : mop) (M : QM) : option geom :=
       match zoom_region m, rel_box_centre m ps with
       | Some (y0, y1, x0, x1), Some c => Some (y1 - y0 + 2 * b, x1 - x0 + 2 * b, ps, padd c o) | _, _ => None end
   | MPadded kh kw => Some (rows m + kh - 1, cols m + kw - 1, ps, o)
+  | MTrimmedArray ih iw => Some (rows m - 2 * ((rows m - ih) / 2), cols m - 2 * ((cols m - iw) / 2), ps, o)
   end.
 
 Definition pop_model (op : pop) (M : QM) : option qpt :=
@@ -633,7 +640,7 @@ Definition mop_same (a b : mop) : bool :=
   match a, b with
   | MZoomUnmasked, MZoomUnmasked => true
   | MZoomedAround x, MZoomedAround y => (x =? y)%Z
-  | MPadded a1 a2, MPadded b1 b2 => (a1 =? b1)%Z && (a2 =? b2)%Z
+  | MPadded a1 a2, MPadded b1 b2 | MTrimmedArray a1 a2, MTrimmedArray b1 b2 => (a1 =? b1)%Z && (a2 =? b2)%Z
   | _, _ => false
   end.
 
